@@ -42,10 +42,15 @@ def check(ctx):
         p = gen.rand_point(rng, vs)
         a = [gen.rand_term(rng, ins, "dyadic", point=p) for _ in range(rng.randint(0, 2))] if ins else []
         g = []
+        # sometimes part of the interface is mentioned by no constraint at all (declared but unconstrained variables)
+        used = vs if (nv < 2 or rng.random() < 0.7) else rng.sample(vs, rng.randint(1, nv - 1))
+        free = [v for v in vs if v not in used]
+        if free:
+            a = [t for t in a if all(x in used for x in t[0])]
         if mode in ("bounded", "infeasible"):
-            for v in vs:
+            for v in used:
                 g += pc.two_sided(rng, {v: F(1)}, p, 6)
-        g += [gen.rand_term(rng, vs, "dyadic", point=p) for _ in range(rng.randint(1, 3))]
+        g += [gen.rand_term(rng, used, "dyadic", point=p) for _ in range(rng.randint(1, 3))]
         if mode == "infeasible":
             t = rng.choice(g)
             g.append(({x: -c for x, c in t[0].items()}, -t[1] - F(rng.randint(1, 6), 2)))
@@ -56,6 +61,11 @@ def check(ctx):
         except Exception:
             continue
         obj = {v: F(rng.choice([-3, -2, -1, 1, 2, 3])) for v in rng.sample(vs, rng.randint(1, min(3, nv)))}
+        if free and rng.random() < 0.7:
+            obj[rng.choice(free)] = F(rng.choice([-2, -1, 1, 2]))
+            obj = dict(list(obj.items())[-3:])
+        hist["unconstrained_interface_variable_in_objective" if any(x in free for x in obj) else "objective_over_constrained_variables"] = \
+            hist.get("unconstrained_interface_variable_in_objective" if any(x in free for x in obj) else "objective_over_constrained_variables", 0) + 1
         expr = render_objective(obj)
         mx = rng.random() < 0.5
         okind, v, calls = pp.observe(lambda: k1.optimize(expr, maximize=mx))
